@@ -38,7 +38,7 @@ def gen_case(rng, tier):
             ops.append("omit 1 %d" % en)
             r = (r | 1) if en else 0
         if small:
-            kind = rng.choice(["c0", "c1", "cx", "nc", "nc"])
+            kind = rng.choice(["c0", "c1", "cx", "nc", "nc", "near", "near", "near"])
             full = (1 << w) - 1
             if kind == "c0":
                 pat, sd = 0, 0
@@ -46,6 +46,9 @@ def gen_case(rng, tier):
                 pat, sd = 0, full
             elif kind == "cx":
                 pat, sd = 0, rng.choice([1, 5, 0x4d, 0x80, 3]) & full
+            elif kind == "near":
+                # nearly constant: the deviation is confined to a few samples (first byte, last byte, or one place)
+                pat, sd = 0, rng.choice([0, full, 3 & full, 0x4d & full])
             else:
                 pat, sd = 2, seed + b
         else:
@@ -53,7 +56,25 @@ def gen_case(rng, tier):
             pat, sd = rng.choice([2, 4, 1]), seed + b
         patterns.append(kind)
         # one call per block, sometimes split in two calls
-        if rng.random() < 0.3 and a_spd > 2:
+        if kind == "near":
+            per_byte = 8 // w
+            where = rng.choice(["first_byte", "first_byte", "last_byte", "one"])
+            if where == "first_byte":
+                lo, hi = 1, per_byte                   # samples 1 .. per_byte-1 (sample 0 keeps the constant)
+            elif where == "last_byte":
+                lo, hi = a_spd - per_byte, a_spd
+            else:
+                lo = rng.randrange(0, a_spd)
+                hi = lo + 1
+            hi = max(hi, lo + 1)
+            for sg in (1, 2):
+                if lo > 0:
+                    ops.append("fsr %d %d %d 0 %d" % (sg, first + pos, lo, sd))
+                # deviating samples: complement of the constant so that they always differ
+                ops.append("fsr %d %d %d 0 %d" % (sg, first + pos + lo, hi - lo, (sd ^ full) if w < 8 else (sd ^ 0x55)))
+                if hi < a_spd:
+                    ops.append("fsr %d %d %d 0 %d" % (sg, first + pos + hi, a_spd - hi, sd))
+        elif rng.random() < 0.3 and a_spd > 2:
             cut = rng.randrange(1, a_spd)
             if pat == 0:
                 for sg in (1, 2):
@@ -95,6 +116,15 @@ def gen_case(rng, tier):
         else:
             ops.append("rd 1 %d %d" % (bstart + off, ln))
         ops.append("rd 2 %d %d" % (bstart + off, ln))
+    if small and len(patterns) >= 3:
+        # read order matters for caches: stored block, then the omitted neighbour, then the stored block again,
+        # and the same straddling window twice
+        for _ in range(4):
+            b = rng.randrange(0, len(patterns) - 1)
+            w0 = b * a_spd + rng.randrange(a_spd // 2, a_spd)
+            ln = min(total - w0, rng.randrange(2, a_spd))
+            if ln > 0:
+                ops += ["rd 1 %d %d" % (w0, ln), "rd 1 %d %d" % (w0, ln), "rd 1 %d %d" % (b * a_spd, min(a_spd, total - b * a_spd))]
     if small:
         # unaligned windows crossing omitted/stored boundaries: bit exact for every <= 8-bit type
         for _ in range(nreads):
